@@ -42,6 +42,7 @@ func init() {
 			ruleErrorPathKeepsLine(r, []string{"UnpackExtractor", "LineFormat"}) // "unless a formatting stage rewrote it, its original line": a stage that fails leaves the line alone
 			ruleDistinct(r)
 			ruleIndexLoopDeletion(r, []string{metricPkg, enginePkg, dockerlogPkg})
+			ruleOffloadProvenance(r)
 		},
 	})
 }
